@@ -128,10 +128,17 @@ class LifeRun:
             p.start()
         if scen.get("prior_session"):
             # the same Gateway object was already used for a complete session (reconnect loop)
+            pers = self.gateway.persistence
+            bad_dir = os.path.join(d, "not-a-file")
+
             async def prior():
                 async with self.gateway:
                     if scen.get("external_edit"):
                         self.gateway.nodes[90] = Node(90, 17, "2.0")
+                    if scen.get("prior_saver_died") and pers is not None:
+                        # the background saver of that earlier session fails (its file cannot be written) and ends
+                        os.makedirs(bad_dir, exist_ok=True)
+                        pers.path = bad_dir
                     await asyncio.sleep(0)
             t0 = self.loop.create_task(prior(), name="main")
             guard = 0
@@ -144,6 +151,8 @@ class LifeRun:
             self.loop.settle()
             if t0.done() and not t0.cancelled() and t0.exception() is not None:
                 self.prior_error = type(t0.exception()).__name__
+            if scen.get("prior_saver_died") and pers is not None:
+                pers.path = self.path        # the file is writable again for the session under observation
             if scen["transport"] == "fake":
                 self.transport.connected = 0
                 self.transport.disconnected = 0
@@ -442,6 +451,7 @@ def scenarios(tier: str) -> list[dict]:
     out.append(dict(base, transport="fake", connect_fail=False, disconnect_fail=False, finish="ok", prior_session=True, max_ticks=2))
     out.append(dict(base, transport="fake", connect_fail=False, disconnect_fail=False, finish="raise", prior_session=True, max_ticks=2, max_run_only=0))
     out.append(dict(base, transport="fake", connect_fail=False, disconnect_fail=False, finish="ok", prior_session=True, external_edit=True, max_ticks=1, max_run_only=0))
+    out.append(dict(base, transport="fake", connect_fail=False, disconnect_fail=False, finish="ok", prior_session=True, prior_saver_died=True, max_ticks=1, max_run_only=0))
     for kind in ("tcp", "serial", "mqtt"):
         out.append(dict(base, transport=kind, connect_fail=False, disconnect_fail=False, finish="ok", max_run_only=0))
         out.append(dict(base, transport=kind, connect_fail=True, disconnect_fail=False, finish="ok", max_run_only=0))
